@@ -24,6 +24,10 @@ Proj == [nh |-> nh, lsub |-> lsub, rsub |-> rsub, ref |-> [n \in Notifs |-> ref[
 H(op, a1, a2) == op \in GenOps /\ hist' = Append(hist, [op |-> op, a1 |-> a1, a2 |-> a2, pre |-> Proj])
 Go == ~stopped /\ Len(hist) < MaxSteps
 Same == UNCHANGED <<hist, nh, stopped>>
+\* a listen request in the step vocabulary: the URIs in order, then those the SubscribeHandler rejects: "u1+u2/u2"
+RECURSIVE Join(_)
+Join(q) == IF q = <<>> THEN "" ELSE IF Len(q) = 1 THEN q[1] ELSE q[1] \o "+" \o Join(Tail(q))
+ListenArg(q, rej) == Join(q) \o "/" \o Join(SelectSeq(q, LAMBDA u : u \in rej))
 
 GenInit == Init /\ hist = <<>> /\ nh = [s \in Sessions |-> [t \in Topics |-> 0]] /\ stopped = FALSE
 
@@ -31,6 +35,7 @@ GenSdk ==
   \/ (\E n \in Notifs : TimerFire(n) \/ OrphFire(n) \/ CallbackRun(n)) /\ Same
   \/ RaceChange /\ Same
   \/ (\E s \in Sessions, u \in Uris : FinishUnsub(s, u)) /\ Same
+  \/ (\E s \in Sessions : ListenStep(s)) /\ Same
   \/ (\E s \in Sessions : Read(s) \/ Invalidate(s)) /\ Same
   \/ \E s \in Sessions : UserHandler(s) /\ nh' = [nh EXCEPT ![s][hnd[s].msg.topic] = @ + 1] /\ UNCHANGED <<hist, stopped>>
   \/ (\E s \in Sessions, c \in Slots : ServeList(s, c) \/ CachePut(s, c)) /\ Same
@@ -43,6 +48,8 @@ OtherEnv ==
   \/ \E u \in Uris : Updated(u) /\ H("updated", u, "")
   \/ \E s \in Sessions : (Connect(s) /\ H("connect", s, "")) \/ (Close(s) /\ H("close", s, ""))
   \/ \E s \in Sessions, u \in Uris : (Subscribe(s, u) /\ H("subscribe", s, u)) \/ (Unsubscribe(s, u) /\ H("unsubscribe", s, u))
+  \/ \E s \in Listeners, q \in UriSeqs, rej \in SUBSET Uris : Listen(s, q, rej) /\ H("listen", s, ListenArg(q, rej))
+  \/ \E s \in Listeners : Unlisten(s) /\ H("unlisten", s, "")
   \/ \E s \in Sessions, c \in Slots, i \in Items : ListStart(s, c, i) /\ H("list", s, i)
   \/ \E g \in GateNames, s \in Sessions : (Hold(g, s) /\ Cardinality(gates) < 2 /\ H("hold", g, s)) \/ (Release(g, s) /\ H("release", g, s))
 TickEn == EnvOK /\ now < MaxTime /\ \E n \in Notifs : TimerArmed(n)
@@ -55,12 +62,12 @@ Stop == /\ ~stopped /\ EnvOK /\ Len(hist) >= MinSteps
         /\ stopped' = TRUE /\ UNCHANGED <<vars, hist, nh>>
 DrainRelease == /\ stopped /\ EnvOK /\ gates # {}
                 /\ gates' = {}
-                /\ UNCHANGED <<now, ver, ref, refDue, orph, cbs, sess, lsub, rsub, usub, pun, chan, nq, hnd, cache, cgen, call, handled, race, budget, ent, got, bad>>
+                /\ UNCHANGED <<now, ver, ref, refDue, orph, cbs, sess, lsub, rsub, usub, pun, chan, nq, hnd, cache, cgen, call, handled, race, budget, ent, got, bad, lst>>
                 /\ Same
 DrainTick == /\ stopped /\ EnvOK /\ gates = {} /\ now < MaxTime + D
              /\ \E n \in Notifs : TimerArmed(n)
              /\ now' = now + 1
-             /\ UNCHANGED <<ver, ref, refDue, orph, cbs, sess, lsub, rsub, usub, pun, chan, nq, hnd, cache, cgen, call, handled, gates, race, budget, ent, got, bad>>
+             /\ UNCHANGED <<ver, ref, refDue, orph, cbs, sess, lsub, rsub, usub, pun, chan, nq, hnd, cache, cgen, call, handled, gates, race, budget, ent, got, bad, lst>>
              /\ Same
 
 GenNext == GenSdk \/ GenEnv \/ Stop \/ DrainRelease \/ DrainTick
